@@ -59,6 +59,10 @@ func (in *nestInst) mk(class string) (v any, stackLike bool) {
 	case "named-ptr-stack":
 		a := stackage.And().Push(t)
 		return StackRef(&a), true
+	case "ptr20-stack": // twenty pointer levels above a Stack (round 14): the number of levels is nobody's business
+		return deepPointer(stackage.And().Push(t), 20), true
+	case "ptr33-alias":
+		return deepPointer(StackAlias(stackage.Or().Push(t)), 33), true
 	case "ptr-alias-var": // a pointer to an alias variable that is still unset: no Stack (yet)
 		a := new(StackAlias)
 		in.vars = append(in.vars, a)
@@ -88,7 +92,7 @@ func isStackLike(v any) bool {
 	}
 	// any number of pointer levels above a Stack or one of the harness's alias types
 	rv := reflect.ValueOf(v)
-	for depth := 0; rv.Kind() == reflect.Ptr && depth < 8; depth++ {
+	for depth := 0; rv.Kind() == reflect.Ptr && depth < 64; depth++ {
 		if rv.IsNil() {
 			return false
 		}
@@ -553,7 +557,7 @@ func c13Configs(c *Ctx) []c13Cfg {
 	}
 	out = append(out, c13Cfg{"OR+decorated", 2, 2, nestClasses, false})
 	out = append(out, c13Cfg{"AND+rejected", 2, 2, []string{"prim", "stack", "alias", "ptr-alias", "cond", "nil"}, false})
-	boxed := []string{"prim", "ptr-iface-stack", "stack", "ptr-iface-ptr-alias", "named-ptr-alias", "named-ptr-stack"} // (boxes, and declared pointer types)
+	boxed := []string{"prim", "ptr-iface-stack", "stack", "ptr-iface-ptr-alias", "named-ptr-alias", "named-ptr-stack", "ptr20-stack", "ptr33-alias"} // (boxes, declared pointer types, long pointer chains)
 	out = append(out, c13Cfg{"OR+boxed", 2, 2, boxed, false}, c13Cfg{"CONDITION+boxed", 1, 1, boxed, true})
 	out = append(out, c13Cfg{"LIST+cap2", 2, 3, []string{"prim", "stack", "ptr-alias", "cond"}, false}, c13Cfg{"NOT+cap2", 2, 3, []string{"prim", "alias", "nil"}, false})
 	// pointers to alias variables the caller fills in and empties behind the stack's back
